@@ -497,6 +497,83 @@ def body_posterior(case, ctx):
     ctx.event("k==m" if k == m else ("k==1" if k == 1 else "1<k<m"))
 
 
+# ------------------------------------------------------------------ whole-number hyper-parameters / parameter vectors held as integers
+@st.composite
+def int_layouts(draw):
+    n = draw(st.integers(1, 6))
+    perm = draw(st.permutations(list(range(n))))
+    ncomp = draw(st.integers(1, min(4, n)))
+    cuts = sorted(draw(st.lists(st.integers(1, n - 1), min_size=ncomp - 1, max_size=ncomp - 1, unique=True))) if n > 1 else []
+    comps, theta = [], [0] * n
+    for g in [list(perm[a:b]) for a, b in zip([0] + cuts, cuts + [n])]:
+        kind = draw(st.sampled_from(["gauss", "exp", "uniform"]))
+        pars = []
+        for i in g:
+            if kind == "gauss":
+                par = [draw(st.integers(-20, 20)), draw(st.integers(1, 6))]
+                theta[i] = par[0] + draw(st.integers(-12, 12))
+            elif kind == "exp":
+                par = [draw(st.integers(1, 6))]
+                theta[i] = draw(st.integers(0, 30))
+            else:
+                lo = draw(st.integers(-20, 20))
+                par = [lo, lo + draw(st.integers(1, 9))]
+                theta[i] = draw(st.integers(par[0], par[1]))
+            pars.append(par)
+        comps.append({"kind": kind, "idx": g, "pars": pars})
+    return {"seed": draw(st.integers(0, 2**31)), "n": n, "comps": comps, "theta": theta,
+            "par_form": draw(st.sampled_from(["pyint", "int64", "int32"])), "theta_form": draw(st.sampled_from(["int64", "int32", "int64", "float64"])),
+            "joint": draw(st.booleans())}
+
+
+def make_form(kind, pars, idx, form):
+    conv = (lambda v: [int(x) for x in v]) if form == "pyint" else ((lambda v: np.array(v, dtype=form)) if form != "float" else (lambda v: [float(x) for x in v]))
+    if kind == "gauss":
+        return GaussianPrior(mean=conv([p[0] for p in pars]), sigma=conv([p[1] for p in pars]), variable_indices=list(idx))
+    if kind == "exp":
+        return ExponentialPrior(beta=conv([p[0] for p in pars]), variable_indices=list(idx))
+    return UniformPrior(lower=conv([p[0] for p in pars]), upper=conv([p[1] for p in pars]), variable_indices=list(idx))
+
+
+def body_int_forms(case, ctx):
+    """a prior given whole-number hyper-parameters as integers, evaluated at a whole-number vector held as integers, is the prior given
+    the same numbers as floats"""
+    comps, n = case["comps"], case["n"]
+    if not case["joint"]:
+        comps = comps[:1]
+    obj_i = [make_form(c["kind"], c["pars"], c["idx"], case["par_form"]) for c in comps]
+    obj_f = [make_form(c["kind"], c["pars"], c["idx"], "float") for c in comps]
+    pri_i, pri_f = (JointPrior(obj_i, n), JointPrior(obj_f, n)) if case["joint"] else (obj_i[0], obj_f[0])
+    th_f = np.array(case["theta"], dtype=float)
+    tf = case["theta_form"]
+    th_i = th_f.copy() if tf == "float64" else ([int(v) for v in case["theta"]] if tf == "pyint-list" else np.array(case["theta"], dtype=tf))
+    tag = f"{case['par_form']}/{tf}"
+    with np.errstate(all="ignore"):
+        v_i, v_f = float(pri_i(th_i)), float(pri_f(th_f))
+        if not (v_i == v_f or abs(v_i - v_f) <= 1e-12 * (abs(v_f) + 1)):
+            raise Violation(f"int-forms:value", f"[{tag}] layout {[(c['kind'], c['idx'], c['pars']) for c in comps]} at {case['theta']}: log-prior {v_i!r} with integer inputs, {v_f!r} with the same numbers as floats")
+        if v_f > -1e30:
+            g_i, g_f = np.asarray(pri_i.gradient(th_i), dtype=float), np.asarray(pri_f.gradient(th_f), dtype=float)
+            if g_i.shape != g_f.shape or not np.allclose(g_i, g_f, rtol=1e-12, atol=0):
+                raise Violation(f"int-forms:gradient", f"[{tag}] layout {[(c['kind'], c['idx'], c['pars']) for c in comps]} at {case['theta']}: gradient {g_i.tolist()} with integer inputs, {g_f.tolist()} with floats")
+            c_i, cg_i = float(pri_i.cost(th_i)), np.asarray(pri_i.cost_gradient(th_i), dtype=float)
+            if c_i != -v_i or not np.array_equal(cg_i, -g_i):
+                raise Violation(f"int-forms:cost", f"[{tag}] cost / cost_gradient are not the negatives of value / gradient for integer inputs")
+        b_i, b_f = list(pri_i.bounds), list(pri_f.bounds)
+        if len(b_i) != len(b_f) or any(not (same_bound(a[0], b[0]) and same_bound(a[1], b[1])) for a, b in zip(b_i, b_f)):
+            raise Violation(f"int-forms:bounds", f"[{tag}] bounds {b_i} vs {b_f}")
+        rngctl.reset(case["seed"])
+        s_i = np.array([np.asarray(pri_i.sample(), dtype=float) for _ in range(20)])
+        rngctl.reset(case["seed"])
+        s_f = np.array([np.asarray(pri_f.sample(), dtype=float) for _ in range(20)])
+        if s_i.shape != s_f.shape or not np.allclose(s_i, s_f, rtol=1e-12, atol=1e-12):
+            raise Violation(f"int-forms:sample", f"[{tag}] layout {[(c['kind'], c['idx'], c['pars']) for c in comps]}: draws from the same generator state differ: {s_i[0].tolist()} vs {s_f[0].tolist()}")
+    ctx.nontrivial(len(comps) >= 2 or len(comps[0]["idx"]) >= 2)
+    ctx.event("pars=" + case["par_form"])
+    ctx.event("theta=" + tf)
+    ctx.event("joint" if case["joint"] else "single")
+
+
 SUBCHECKS = [
     Sub("single", lambda t: single_layouts(), body_single, quick=2500, thorough=60000, shards_quick=5, shards_thorough=16,
         rule="a hyper-parameter farther than 10x from 1"),
@@ -509,4 +586,6 @@ SUBCHECKS = [
     Sub("errors", lambda t: bad_layouts(), body_errors, quick=200, thorough=2000, rule="every invalid-layout class"),
     Sub("posterior", lambda t: post_cases(), body_posterior, quick=1500, thorough=40000, shards_quick=4, shards_thorough=16,
         rule="interleaved joint prior, or 1 < n_guesses < prior_samples"),
+    Sub("int-forms", lambda t: int_layouts(), body_int_forms, quick=1500, thorough=40000, shards_quick=4, shards_thorough=16,
+        rule=">= 2 variables with integer-typed hyper-parameters"),
 ]
